@@ -293,8 +293,16 @@ def to_element(data_obj, **inherited_attrib):
         elif isinstance(attrib_value, Affine2D):
             attrib_value = attrib_value.tostring()
         if attr_name in inherited_attrib:
-            if attrib_value == inherited_attrib[attr_name]:
+            inherited_value = inherited_attrib[attr_name]
+            if attrib_value == inherited_value:
                 continue
+            if isinstance(field_value, numbers.Number):
+                # the inherited text may spell the same number differently (".5", "0.50")
+                try:
+                    if float(inherited_value) == field_value:
+                        continue
+                except ValueError:
+                    pass
         elif field_value == default_value:
             continue
         el.attrib[attr_name] = attrib_value
